@@ -20,8 +20,6 @@ structure OpOk (o : Op) : Prop where
   l1 : o.futLive = true → o.boxLive = true ∧ o.status ≠ .dropped
   l2 : o.futLive = false → o.status = .dropped ∨ o.boxLive = false
   r2 : o.boxLive = false → o.resInit = false
-  /-- the operations of the teardown population are single-shot -/
-  sm : o.multi = false
   /-- only a live future is `Running` (its drop turns it into `Dropped`) -/
   rn : isRunning o.status = true → o.futLive = true
 
@@ -33,7 +31,7 @@ def isDropped : Status → Bool
 
 def activeB (o : Op) : Bool := isRunning o.status || (isDropped o.status && o.boxLive)
 
-theorem opOk_init : OpOk { multi := false } := by
+theorem opOk_init (m : Bool) : OpOk { multi := m } := by
   constructor <;> simp
 
 theorem opOk_pollAux (o : Op) (w : Nat) (room : Bool) (fuel : Nat) :
@@ -42,12 +40,12 @@ theorem opOk_pollAux (o : Op) (w : Nat) (room : Bool) (fuel : Nat) :
   case case12 o fuel r hs x r' hn hneg hre hm ih =>
     intro h hf
     apply ih
-    · obtain ⟨f1, f2, r1, l1, l2, r2, sm, rn⟩ := h
+    · obtain ⟨f1, f2, r1, l1, l2, r2, rn⟩ := h
       constructor <;> simp_all
     · exact hf
   all_goals
     intro h hf
-    obtain ⟨f1, f2, r1, l1, l2, r2, sm, rn⟩ := h
+    obtain ⟨f1, f2, r1, l1, l2, r2, rn⟩ := h
     constructor <;> simp_all
 
 theorem opOk_poll (o : Op) (w : Nat) (room : Bool) (h : OpOk o) (hf : o.futLive = true) :
@@ -56,7 +54,7 @@ theorem opOk_poll (o : Op) (w : Nat) (room : Bool) (h : OpOk o) (hf : o.futLive 
 theorem opOk_update (o o' : Op) (c : Res) (effs : List Eff) (h : OpOk o)
     (ha : o.status = .dropped → o.boxLive = true) (hu : o.update c = some (o', effs)) :
     OpOk o' := by
-  obtain ⟨f1, f2, r1, l1, l2, r2, sm, rn⟩ := h
+  obtain ⟨f1, f2, r1, l1, l2, r2, rn⟩ := h
   cases o with
   | mk multi status waker boxLive resInit futLive frees resDrops =>
   cases status <;> simp [Op.update] at hu
@@ -68,7 +66,7 @@ theorem opOk_update (o o' : Op) (c : Res) (effs : List Eff) (h : OpOk o)
 
 theorem opOk_dropFut (o : Op) (room : Bool) (h : OpOk o) (hf : o.futLive = true) :
     OpOk (o.dropFut room).1 := by
-  obtain ⟨f1, f2, r1, l1, l2, r2, sm, rn⟩ := h
+  obtain ⟨f1, f2, r1, l1, l2, r2, rn⟩ := h
   cases o with
   | mk multi status waker boxLive resInit futLive frees resDrops =>
   cases status <;> (constructor <;> simp_all [Op.dropFut, isRunning])
@@ -85,7 +83,7 @@ theorem pollAux_active (o : Op) (w : Nat) (room : Bool) (fuel : Nat) :
   case case12 o fuel r hs x r' hn hneg hre hm ih =>
     intro h hf
     have h' : OpOk { o with status := .notStarted } := by
-      obtain ⟨f1, f2, r1, l1, l2, r2, sm, rn⟩ := h
+      obtain ⟨f1, f2, r1, l1, l2, r2, rn⟩ := h
       constructor <;> simp_all
     have := ih h' hf
     simp_all [activeB, isRunning, isDropped]
@@ -101,47 +99,71 @@ theorem poll_active (o : Op) (w : Nat) (room : Bool) (h : OpOk o) (hf : o.futLiv
         activeB (o.poll w room).1 = activeB o) := pollAux_active o w room 2 h hf
 
 /-- The resources either stay with the state or are handed to the caller
-(`Ok`) or dropped (`Err`); `poll` never conjures them up. -/
+(`Ok` of a single-shot operation) or dropped (`Err`, end of a stream); `poll`
+never conjures them up. An `Ok` is only ever returned by a state that still
+holds its resources (a multishot stream keeps them while handing out items). -/
 theorem pollAux_res (o : Op) (w : Nat) (room : Bool) (fuel : Nat) :
     OpOk o → o.futLive = true →
-    (b2n (o.pollAux w room fuel).1.resInit + b2n (isReadyOk (o.pollAux w room fuel).2.1) ≤ b2n o.resInit ∧
+    (b2n (o.pollAux w room fuel).1.resInit ≤ b2n o.resInit ∧
+     (o.multi = false →
+       b2n (o.pollAux w room fuel).1.resInit + b2n (isReadyOk (o.pollAux w room fuel).2.1) ≤ b2n o.resInit) ∧
+     (isReadyOk (o.pollAux w room fuel).2.1 = true → o.resInit = true) ∧
      (o.pollAux w room fuel).1.futLive = true) := by
   fun_induction Op.pollAux o w room fuel
   case case12 o fuel r hs x r' hn hneg hre hm ih =>
     intro h hf
     have h' : OpOk { o with status := .notStarted } := by
-      obtain ⟨f1, f2, r1, l1, l2, r2, sm, rn⟩ := h
+      obtain ⟨f1, f2, r1, l1, l2, r2, rn⟩ := h
       constructor <;> simp_all
-    have := ih h' hf
-    simp_all
+    exact ih h' hf
   all_goals
     intro h hf
     have := h.l1 hf
     have := h.r1 this.1
-    have := h.sm
     simp_all [b2n, isReadyOk]
 
 theorem poll_res (o : Op) (w : Nat) (room : Bool) (h : OpOk o) (hf : o.futLive = true) :
-    b2n (o.poll w room).1.resInit + b2n (isReadyOk (o.poll w room).2.1) ≤ b2n o.resInit ∧
+    b2n (o.poll w room).1.resInit ≤ b2n o.resInit ∧
+    (o.multi = false →
+      b2n (o.poll w room).1.resInit + b2n (isReadyOk (o.poll w room).2.1) ≤ b2n o.resInit) ∧
+    (isReadyOk (o.poll w room).2.1 = true → o.resInit = true) ∧
     (o.poll w room).1.futLive = true := pollAux_res o w room 2 h hf
 
-/-- Processing the final completion of an active operation: it is no longer
-active afterwards, its resources are not re-created, the future is untouched. -/
-theorem update_active (o : Op) (res : Int) (h : OpOk o) (ha : activeB o = true) :
-    ∃ o' effs, o.update ⟨res, 0⟩ = some (o', effs) ∧ activeB o' = false ∧ OpOk o' ∧
+/-- Processing the FINAL completion (no `F_MORE`) of an active operation: it is
+no longer active afterwards, its resources are not re-created, the future is
+untouched. -/
+theorem update_final (o : Op) (c : Res) (h : OpOk o) (ha : activeB o = true)
+    (hf : fMore c.flags = false) :
+    ∃ o' effs, o.update c = some (o', effs) ∧ activeB o' = false ∧ OpOk o' ∧
       b2n o'.resInit ≤ b2n o.resInit ∧ o'.futLive = o.futLive := by
-  obtain ⟨f1, f2, r1, l1, l2, r2, sm, rn⟩ := h
+  obtain ⟨f1, f2, r1, l1, l2, r2, rn⟩ := h
   cases o with
   | mk multi status waker boxLive resInit futLive frees resDrops =>
-  cases status <;> simp_all [activeB, isRunning, isDropped, Op.update, fMore]
-  · cases waker <;> simp <;> constructor <;> simp_all [isRunning]
+  cases status <;> simp_all [activeB, isRunning, isDropped, Op.update]
+  · cases multi <;> cases waker <;> simp <;> constructor <;> (try simp_all [isRunning])
   · simp [b2n]
+    constructor <;> (try simp_all [isRunning])
+
+/-- Processing a completion with `F_MORE` of an active operation (a multishot
+item, the result of a zero-copy send): it stays active, nothing is freed. -/
+theorem update_more (o : Op) (c : Res) (h : OpOk o) (ha : activeB o = true)
+    (hf : fMore c.flags = true) :
+    ∃ o' effs, o.update c = some (o', effs) ∧ activeB o' = true ∧ OpOk o' ∧
+      o'.resInit = o.resInit ∧ o'.futLive = o.futLive ∧ Eff.free ∉ effs := by
+  obtain ⟨f1, f2, r1, l1, l2, r2, rn⟩ := h
+  cases o with
+  | mk multi status waker boxLive resInit futLive frees resDrops =>
+  cases status <;> simp_all [activeB, isRunning, isDropped, Op.update]
+  · cases multi <;> cases waker <;> simp <;>
+      (refine ⟨_, _, ⟨rfl, rfl⟩, by simp, ?_, by simp, by simp, by simp⟩) <;>
+      (constructor <;> simp_all [isRunning])
+  · refine ⟨_, _, ⟨rfl, rfl⟩, by simp, ?_, by simp, by simp, by simp⟩
     constructor <;> simp_all [isRunning]
 
 theorem dropFut_active (o : Op) (room : Bool) (h : OpOk o) (hf : o.futLive = true) :
     activeB (o.dropFut room).1 = activeB o ∧ b2n (o.dropFut room).1.resInit ≤ b2n o.resInit ∧
     (o.dropFut room).1.futLive = false := by
-  obtain ⟨f1, f2, r1, l1, l2, r2, sm, rn⟩ := h
+  obtain ⟨f1, f2, r1, l1, l2, r2, rn⟩ := h
   cases o with
   | mk multi status waker boxLive resInit futLive frees resDrops =>
   cases status <;> simp_all [Op.dropFut, activeB, isRunning, isDropped, b2n] <;> split <;> simp
@@ -189,6 +211,23 @@ theorem update_mono (o o' : Op) (c : Res) (effs : List Eff) (hu : o.update c = s
 @[simp] theorem closeFd_cqLen (s : St) (k : Nat) : (s.closeFd k).cqLen = s.cqLen := rfl
 @[simp] theorem closeFd_sqLen (s : St) (k : Nat) : (s.closeFd k).sqLen = s.sqLen := rfl
 
+@[simp] theorem releaseSlot_objs (s : St) (j : Nat) : (s.releaseSlot j).toObjs = s.toObjs := rfl
+@[simp] theorem releaseSlot_cqLen (s : St) (j : Nat) : (s.releaseSlot j).cqLen = s.cqLen := rfl
+@[simp] theorem releaseSlot_sqLen (s : St) (j : Nat) : (s.releaseSlot j).sqLen = s.sqLen := rfl
+@[simp] theorem releaseSlot_sq (s : St) (j : Nat) : (s.releaseSlot j).sq = s.sq := rfl
+@[simp] theorem releaseSlot_fdCloses (s : St) (j : Nat) : (s.releaseSlot j).fdCloses = s.fdCloses := rfl
+
+@[simp] theorem closeIdx_objs (s : St) (fi : Nat) : (s.closeIdx fi).toObjs = s.toObjs := by
+  cases fi <;> simp [St.closeIdx] <;> split <;> (try split) <;> simp
+@[simp] theorem closeIdx_cqLen (s : St) (fi : Nat) : (s.closeIdx fi).cqLen = s.cqLen := by
+  cases fi <;> simp [St.closeIdx] <;> split <;> (try split) <;> simp
+@[simp] theorem closeIdx_sqLen (s : St) (fi : Nat) : (s.closeIdx fi).sqLen = s.sqLen := by
+  cases fi <;> simp [St.closeIdx] <;> split <;> (try split) <;> simp
+@[simp] theorem closeIdx_sq (s : St) (fi : Nat) : (s.closeIdx fi).sq = s.sq := by
+  cases fi <;> simp [St.closeIdx, St.emit] <;> split <;> (try split) <;> simp
+@[simp] theorem closeIdx_fdCloses (s : St) (fi : Nat) : (s.closeIdx fi).fdCloses = s.fdCloses := by
+  cases fi <;> simp [St.closeIdx, St.emit] <;> split <;> (try split) <;> simp
+
 @[simp] theorem consumeOne_objs (s : St) (e : SqEntry) : (s.consumeOne e).toObjs = s.toObjs := by
   cases e <;> simp [St.consumeOne] <;> split <;> simp
 @[simp] theorem consumeOne_cqLen (s : St) (e : SqEntry) : (s.consumeOne e).cqLen = s.cqLen := by
@@ -229,44 +268,44 @@ theorem update_mono (o o' : Op) (c : Res) (effs : List Eff) (hu : o.update c = s
 @[simp] theorem wakeBlocked_overflow (s : St) : s.wakeBlocked.overflow = s.overflow := rfl
 @[simp] theorem wakeBlocked_fdCloses (s : St) : s.wakeBlocked.fdCloses = s.fdCloses := rfl
 
-@[simp] theorem kpostQuiet_objs (s : St) (i : Nat) (r : Int) : (s.kpostQuiet i r).toObjs = s.toObjs := by
+@[simp] theorem kpostQuiet_objs (s : St) (i : Nat) (r : Int) (f : Nat) : (s.kpostQuiet i r f).toObjs = s.toObjs := by
   unfold St.kpostQuiet; split <;> simp
-@[simp] theorem kpostQuiet_cqLen (s : St) (i : Nat) (r : Int) : (s.kpostQuiet i r).cqLen = s.cqLen := by
+@[simp] theorem kpostQuiet_cqLen (s : St) (i : Nat) (r : Int) (f : Nat) : (s.kpostQuiet i r f).cqLen = s.cqLen := by
   unfold St.kpostQuiet; split <;> simp
-@[simp] theorem kpostQuiet_sqLen (s : St) (i : Nat) (r : Int) : (s.kpostQuiet i r).sqLen = s.sqLen := by
+@[simp] theorem kpostQuiet_sqLen (s : St) (i : Nat) (r : Int) (f : Nat) : (s.kpostQuiet i r f).sqLen = s.sqLen := by
   unfold St.kpostQuiet; split <;> simp
-@[simp] theorem kpostQuiet_sq (s : St) (i : Nat) (r : Int) : (s.kpostQuiet i r).sq = s.sq := by
+@[simp] theorem kpostQuiet_sq (s : St) (i : Nat) (r : Int) (f : Nat) : (s.kpostQuiet i r f).sq = s.sq := by
   unfold St.kpostQuiet; split <;> simp
-@[simp] theorem kpostQuiet_fdCloses (s : St) (i : Nat) (r : Int) :
-    (s.kpostQuiet i r).fdCloses = s.fdCloses := by
+@[simp] theorem kpostQuiet_fdCloses (s : St) (i : Nat) (r : Int) (f : Nat) :
+    (s.kpostQuiet i r f).fdCloses = s.fdCloses := by
   unfold St.kpostQuiet; split <;> simp
 
-theorem foldl_kpost_frame (posts : List (Nat × Int)) (s : St) :
-    (posts.foldl (fun (s : St) p => s.kpostQuiet p.1 p.2) s).toObjs = s.toObjs ∧
-    (posts.foldl (fun (s : St) p => s.kpostQuiet p.1 p.2) s).cqLen = s.cqLen ∧
-    (posts.foldl (fun (s : St) p => s.kpostQuiet p.1 p.2) s).sqLen = s.sqLen ∧
-    (posts.foldl (fun (s : St) p => s.kpostQuiet p.1 p.2) s).sq = s.sq ∧
-    (posts.foldl (fun (s : St) p => s.kpostQuiet p.1 p.2) s).fdCloses = s.fdCloses := by
+theorem foldl_kpost_frame (posts : List Post) (s : St) :
+    (posts.foldl (fun (s : St) p => s.kpostQuiet p.1 p.2.1 p.2.2) s).toObjs = s.toObjs ∧
+    (posts.foldl (fun (s : St) p => s.kpostQuiet p.1 p.2.1 p.2.2) s).cqLen = s.cqLen ∧
+    (posts.foldl (fun (s : St) p => s.kpostQuiet p.1 p.2.1 p.2.2) s).sqLen = s.sqLen ∧
+    (posts.foldl (fun (s : St) p => s.kpostQuiet p.1 p.2.1 p.2.2) s).sq = s.sq ∧
+    (posts.foldl (fun (s : St) p => s.kpostQuiet p.1 p.2.1 p.2.2) s).fdCloses = s.fdCloses := by
   induction posts generalizing s with
   | nil => simp
   | cons p ps ih => simp [List.foldl, ih]
 
-@[simp] theorem enter_objs (s : St) (m : Nat) (ge : Bool) (posts : List (Nat × Int)) :
+@[simp] theorem enter_objs (s : St) (m : Nat) (ge : Bool) (posts : List Post) :
     (s.enter m ge posts).toObjs = s.toObjs := by
   unfold St.enter
   simp only [wakeBlocked_objs, emit_objs]
   split <;> simp [(foldl_kpost_frame posts _).1]
-@[simp] theorem enter_cqLen (s : St) (m : Nat) (ge : Bool) (posts : List (Nat × Int)) :
+@[simp] theorem enter_cqLen (s : St) (m : Nat) (ge : Bool) (posts : List Post) :
     (s.enter m ge posts).cqLen = s.cqLen := by
   unfold St.enter
   simp only [wakeBlocked_cqLen, emit_cqLen]
   split <;> simp [(foldl_kpost_frame posts _).2.1]
-@[simp] theorem enter_sqLen (s : St) (m : Nat) (ge : Bool) (posts : List (Nat × Int)) :
+@[simp] theorem enter_sqLen (s : St) (m : Nat) (ge : Bool) (posts : List Post) :
     (s.enter m ge posts).sqLen = s.sqLen := by
   unfold St.enter
   simp only [wakeBlocked_sqLen, emit_sqLen]
   split <;> simp [(foldl_kpost_frame posts _).2.2.1]
-@[simp] theorem enter_sq (s : St) (m : Nat) (ge : Bool) (posts : List (Nat × Int)) :
+@[simp] theorem enter_sq (s : St) (m : Nat) (ge : Bool) (posts : List Post) :
     (s.enter m ge posts).sq = [] := by
   unfold St.enter
   simp only [wakeBlocked_sq]
@@ -368,12 +407,27 @@ theorem applyEffs_frame (s : St) (i : Nat) (effs : List Eff) :
 
 Every submission of an operation is, at any time, in exactly one place: the
 submission queue (published), the kernel (in flight), the completion queue or
-the overflow list (its final completion waits to be processed). -/
+the overflow list (its FINAL completion — the one without `F_MORE` — waits to
+be processed). Completions with `F_MORE` (items of a multishot operation, the
+result of a zero-copy send) carry no token: the submission stays in flight. -/
 
+/-- `c` is the final completion of operation `i`. -/
 def isOpCqe (i : Nat) (c : Cqe) : Bool :=
+  match c.ud with
+  | .op j => j == i && !fMore c.flags
+  | .reserved _ => false
+
+/-- `c` is a completion (final or not) of operation `i`. -/
+def cqeOf (i : Nat) (c : Cqe) : Bool :=
   match c.ud with
   | .op j => j == i
   | .reserved _ => false
+
+@[simp] theorem fMore_zero : fMore 0 = false := rfl
+
+theorem cqeOf_of_isOpCqe (i : Nat) (c : Cqe) (h : isOpCqe i c = true) : cqeOf i c = true := by
+  unfold isOpCqe at h; unfold cqeOf
+  split <;> simp_all
 
 def tokQ (q : Queues) (i : Nat) : Nat :=
   q.sq.count (.op i) + q.inflight.count i + q.cq.countP (isOpCqe i) + q.overflow.countP (isOpCqe i)
@@ -419,6 +473,16 @@ theorem tokQ_consumeOne (s : St) (e : SqEntry) (i : Nat) :
     split
     · simp [St.closeFd, tokQ, b2n]
     · simp only [emit_queues]; rw [tokQ_postCqe]; simp [isOpCqe, St.closeFd, tokQ, b2n]
+  | closeIdx fi =>
+    simp only [St.consumeOne]
+    cases fi with
+    | zero => simp [St.closeIdx, b2n]
+    | succ j =>
+      simp only [St.closeIdx]
+      split
+      · simp [St.releaseSlot, tokQ, b2n]
+      · split <;>
+          (simp only [emit_queues]; rw [tokQ_postCqe]; simp [isOpCqe, St.releaseSlot, tokQ, b2n])
 
 theorem tokQ_consume (s : St) (es : List SqEntry) (i : Nat) :
     tokQ (s.consume es).toQueues i = tokQ s.toQueues i + es.count (SqEntry.op i) := by
@@ -435,28 +499,37 @@ theorem tokQ_consumeAll (s : St) (i : Nat) : tokQ s.consumeAll.toQueues i = tokQ
 
 theorem tokQ_wakeBlocked (s : St) (i : Nat) : tokQ s.wakeBlocked.toQueues i = tokQ s.toQueues i := rfl
 
-theorem tokQ_kpostQuiet (s : St) (j : Nat) (r : Int) (i : Nat) :
-    tokQ (s.kpostQuiet j r).toQueues i = tokQ s.toQueues i := by
+theorem canPost_mem (s : St) (j : Nat) (r : Int) (h : s.canPost j r = true) : j ∈ s.inflight := by
+  unfold St.canPost at h
+  simp only [Bool.and_eq_true] at h
+  simpa using h.1
+
+theorem tokQ_kpostQuiet (s : St) (j : Nat) (r : Int) (f : Nat) (i : Nat) :
+    tokQ (s.kpostQuiet j r f).toQueues i = tokQ s.toQueues i := by
   unfold St.kpostQuiet
   split
   · rename_i hc
+    have hmem := canPost_mem s j r hc
     rw [tokQ_postCqe]
     simp only [tokQ, isOpCqe]
-    by_cases h : j = i
-    · subst h
-      have : 0 < s.inflight.count j := List.count_pos_iff.mpr (by simpa using hc)
-      simp [List.count_erase_self]; omega
-    · have h' : i ≠ j := fun e => h e.symm
-      simp [h, b2n, List.count_erase_of_ne h']
+    cases hm : fMore f with
+    | true => simp [b2n]
+    | false =>
+      by_cases h : j = i
+      · subst h
+        have : 0 < s.inflight.count j := List.count_pos_iff.mpr hmem
+        simp [List.count_erase_self]; omega
+      · have h' : i ≠ j := fun e => h e.symm
+        simp [h, b2n, List.count_erase_of_ne h']
   · rfl
 
-theorem tokQ_foldl_kpost (posts : List (Nat × Int)) (s : St) (i : Nat) :
-    tokQ (posts.foldl (fun (s : St) p => s.kpostQuiet p.1 p.2) s).toQueues i = tokQ s.toQueues i := by
+theorem tokQ_foldl_kpost (posts : List Post) (s : St) (i : Nat) :
+    tokQ (posts.foldl (fun (s : St) p => s.kpostQuiet p.1 p.2.1 p.2.2) s).toQueues i = tokQ s.toQueues i := by
   induction posts generalizing s with
   | nil => rfl
   | cons p ps ih => simp [List.foldl, ih, tokQ_kpostQuiet]
 
-theorem tokQ_enter (s : St) (m : Nat) (ge : Bool) (posts : List (Nat × Int)) (i : Nat) :
+theorem tokQ_enter (s : St) (m : Nat) (ge : Bool) (posts : List Post) (i : Nat) :
     tokQ (s.enter m ge posts).toQueues i = tokQ s.toQueues i := by
   unfold St.enter
   simp only [tokQ_wakeBlocked, emit_queues]
@@ -541,7 +614,7 @@ theorem allOk_set (ops : List TOp) (i : Nat) (t' : TOp) (h : AllOk ops) (h' : Op
 addressed operation is updated. -/
 theorem process_shape (s : St) (c : Cqe) :
     (s.process c).ops = s.ops ∨
-    ∃ i t o' effs, c.ud = .op i ∧ s.ops[i]? = some t ∧ t.op.update ⟨c.res, 0⟩ = some (o', effs) ∧
+    ∃ i t o' effs, c.ud = .op i ∧ s.ops[i]? = some t ∧ t.op.update ⟨c.res, c.flags⟩ = some (o', effs) ∧
       (s.process c).ops = s.ops.set i { t with op := o' } := by
   unfold St.process
   split
@@ -556,78 +629,396 @@ theorem process_shape (s : St) (c : Cqe) :
         right
         exact ⟨i, t, r.1, r.2, hud, ht, by simp [hr], by simp [(applyEffs_frame _ _ _).1]⟩
 
+/-! ### Completions that carry no token
+
+A completion with `F_MORE` is processed while its operation is still active:
+the operation's token is in the submission queue / in flight (`base`), or its
+final completion comes LATER in the queue. `Suf base L`: for every completion in
+`L`, `base` plus the final completions from that one on is at least 1. Dropping
+a prefix of `L` (processing it) keeps the rest true by construction. -/
+
+def Suf (base : Nat → Nat) : List Cqe → Prop
+  | [] => True
+  | c :: L => (∀ j, cqeOf j c = true → 1 ≤ base j + (c :: L).countP (isOpCqe j)) ∧ Suf base L
+
+theorem suf_mono (b b' : Nat → Nat) (L : List Cqe) (h : ∀ j, b j ≤ b' j) (hs : Suf b L) : Suf b' L := by
+  induction L with
+  | nil => trivial
+  | cons c L ih =>
+    obtain ⟨h1, h2⟩ := hs
+    exact ⟨fun j hj => by have := h1 j hj; have := h j; omega, ih h2⟩
+
+theorem suf_append_right (b : Nat → Nat) (A B : List Cqe) (hs : Suf b (A ++ B)) : Suf b B := by
+  induction A with
+  | nil => exact hs
+  | cons c A ih => exact ih hs.2
+
+theorem suf_left (b : Nat → Nat) (A B : List Cqe) (hs : Suf b (A ++ B)) :
+    Suf (fun j => b j + B.countP (isOpCqe j)) A := by
+  induction A with
+  | nil => trivial
+  | cons c A ih =>
+    have hs' : Suf b (c :: (A ++ B)) := hs
+    obtain ⟨h1, h2⟩ := hs'
+    refine ⟨fun j hj => ?_, ih h2⟩
+    have := h1 j hj
+    rw [List.countP_cons, List.countP_append] at this
+    show 1 ≤ b j + List.countP (isOpCqe j) B + List.countP (isOpCqe j) (c :: A)
+    rw [List.countP_cons]
+    omega
+
+/-- Appending a completion at the end of the queue: the tokens it takes out of
+`base` (a final completion: one) are the ones it carries itself. -/
+theorem suf_snoc (b b' : Nat → Nat) (L : List Cqe) (c : Cqe)
+    (hb : ∀ i, b i ≤ b' i + b2n (isOpCqe i c))
+    (hc : ∀ j, cqeOf j c = true → 1 ≤ b' j + b2n (isOpCqe j c)) (hs : Suf b L) :
+    Suf b' (L ++ [c]) := by
+  induction L with
+  | nil =>
+    show Suf b' [c]
+    refine ⟨fun j hj => ?_, trivial⟩
+    have := hc j hj
+    simp only [b2n] at this
+    rw [List.countP_cons, List.countP_nil]
+    omega
+  | cons c0 L ih =>
+    obtain ⟨h1, h2⟩ := hs
+    show Suf b' (c0 :: (L ++ [c]))
+    refine ⟨fun j hj => ?_, ih h2⟩
+    have h3 := h1 j hj
+    have h4 := hb j
+    simp only [b2n] at h4
+    rw [List.countP_cons] at h3
+    rw [List.countP_cons, List.countP_append, List.countP_cons, List.countP_nil]
+    omega
+
+/-- The tokens not yet turned into a completion. -/
+def baseQ (q : Queues) (j : Nat) : Nat := q.sq.count (.op j) + q.inflight.count j
+
+def SufS (s : St) : Prop := Suf (baseQ s.toQueues) (s.cq ++ s.overflow)
+
+theorem postCqe_queue (s : St) (c : Cqe) :
+    (s.postCqe c).cq ++ (s.postCqe c).overflow = s.cq ++ s.overflow ++ [c] := by
+  unfold St.postCqe
+  split
+  · rename_i h
+    simp only [Bool.and_eq_true, List.isEmpty_iff] at h
+    simp [h.1]
+  · simp
+
+theorem postCqe_baseQ (s : St) (c : Cqe) (j : Nat) : baseQ (s.postCqe c).toQueues j = baseQ s.toQueues j := by
+  unfold St.postCqe baseQ; split <;> rfl
+
+/-- Posting `c` in state `s'` whose queue is that of `s`. -/
+theorem sufS_post (s s' : St) (c : Cqe) (hcq : s'.cq = s.cq) (hov : s'.overflow = s.overflow)
+    (hb : ∀ i, baseQ s.toQueues i ≤ baseQ s'.toQueues i + b2n (isOpCqe i c))
+    (hc : ∀ j, cqeOf j c = true → 1 ≤ baseQ s'.toQueues j + b2n (isOpCqe j c))
+    (h : SufS s) : SufS (s'.postCqe c) := by
+  unfold SufS
+  rw [postCqe_queue, hcq, hov]
+  exact suf_snoc _ _ _ _ (fun i => by rw [postCqe_baseQ]; exact hb i)
+    (fun j hj => by rw [postCqe_baseQ]; exact hc j hj) h
+
+theorem cqeOf_reserved (j n : Nat) (r : Int) (f : Nat) : cqeOf j ⟨.reserved n, r, f⟩ = false := rfl
+
+theorem sufS_post_reserved (s : St) (n : Nat) (r : Int) (h : SufS s) : SufS (s.postCqe ⟨.reserved n, r, 0⟩) :=
+  sufS_post s s _ rfl rfl (fun i => Nat.le_add_right _ _) (fun j hj => by simp [cqeOf] at hj) h
+
+theorem sufS_congr (s s' : St) (hcq : s'.cq = s.cq) (hov : s'.overflow = s.overflow)
+    (hb : ∀ j, baseQ s.toQueues j ≤ baseQ s'.toQueues j) (h : SufS s) : SufS s' := by
+  unfold SufS at *
+  rw [hcq, hov]
+  exact suf_mono _ _ _ hb h
+
+theorem sufS_flush (s : St) (h : SufS s) : SufS s.flushOverflow := by
+  unfold SufS at *
+  show Suf (baseQ s.toQueues) ((s.cq ++ s.overflow.take _) ++ s.overflow.drop _)
+  rw [List.append_assoc, List.take_append_drop]
+  exact h
+
+theorem sufS_closeIdx (s : St) (fi : Nat) (h : SufS s) : SufS (s.closeIdx fi) := by
+  cases fi with
+  | zero => exact h
+  | succ j =>
+    simp only [St.closeIdx]
+    split
+    · exact sufS_congr s _ rfl rfl (fun _ => Nat.le_refl _) h
+    · split
+      · exact sufS_congr _ _ rfl rfl (fun _ => Nat.le_refl _)
+          (sufS_post s (s.releaseSlot j) _ rfl rfl (fun i => Nat.le_add_right _ _)
+            (fun j hj => by simp [cqeOf] at hj) h)
+      · exact sufS_congr _ _ rfl rfl (fun _ => Nat.le_refl _)
+          (sufS_post s (s.releaseSlot j) _ rfl rfl (fun i => Nat.le_add_right _ _)
+            (fun j hj => by simp [cqeOf] at hj) h)
+
+/-- Consuming the entries `es`: an operation's entry moves from "published"
+(counted by the caller in `es`) to "in flight". -/
+theorem suf_consume (s : St) (es : List SqEntry)
+    (h : Suf (fun j => baseQ s.toQueues j + es.count (SqEntry.op j)) (s.cq ++ s.overflow)) :
+    SufS (s.consume es) := by
+  induction es generalizing s with
+  | nil => simpa [St.consume, SufS] using h
+  | cons e es ih =>
+    simp only [St.consume]
+    apply ih
+    cases e with
+    | op i =>
+      refine suf_mono _ _ _ (fun j => ?_) h
+      simp only [St.consumeOne, baseQ, List.count_append, List.count_cons]
+      by_cases hij : i = j <;> simp [hij] <;> omega
+    | cancel i =>
+      simp only [St.consumeOne]
+      split
+      · refine suf_mono _ _ _ (fun j => ?_) h
+        simp [List.count_cons]
+      · rw [postCqe_queue]
+        refine suf_snoc _ _ _ _ (fun j => ?_) (fun j hj => by simp [cqeOf] at hj) h
+        rw [postCqe_baseQ]; simp [List.count_cons]
+    | close k =>
+      simp only [St.consumeOne]
+      split
+      · refine suf_mono _ _ _ (fun j => ?_) h
+        simp [List.count_cons, St.closeFd, St.emit, baseQ]
+      · show Suf _ ((((s.closeFd k).postCqe _).emit _).cq ++ (((s.closeFd k).postCqe _).emit _).overflow)
+        have hq := postCqe_queue (s.closeFd k) ⟨.reserved 3, -EBADF, 0⟩
+        show Suf _ (((s.closeFd k).postCqe _).cq ++ ((s.closeFd k).postCqe _).overflow)
+        rw [hq]
+        refine suf_snoc _ _ _ _ (fun j => ?_) (fun j hj => by simp [cqeOf] at hj) h
+        show _ ≤ baseQ ((s.closeFd k).postCqe _).toQueues j + _ + _
+        rw [postCqe_baseQ]; simp [List.count_cons, St.closeFd, baseQ]
+    | closeIdx fi =>
+      have h1 : SufS (s.closeIdx fi) → Suf (fun j => baseQ (s.consumeOne (.closeIdx fi)).toQueues j
+          + es.count (SqEntry.op j)) ((s.consumeOne (.closeIdx fi)).cq ++ (s.consumeOne (.closeIdx fi)).overflow) := by
+        intro hh
+        exact suf_mono _ _ _ (fun j => Nat.le_add_right _ _) hh
+      -- the queue and the tokens are those of `s` plus possibly one reserved completion
+      cases fi with
+      | zero =>
+        refine suf_mono _ _ _ (fun j => ?_) h
+        simp [St.consumeOne, St.closeIdx, List.count_cons]
+      | succ j' =>
+        simp only [St.consumeOne, St.closeIdx]
+        split
+        · refine suf_mono _ _ _ (fun j => ?_) h
+          simp [List.count_cons, St.releaseSlot, St.emit, baseQ]
+        · split
+          · show Suf _ (((s.releaseSlot j').postCqe _).cq ++ ((s.releaseSlot j').postCqe _).overflow)
+            rw [postCqe_queue]
+            refine suf_snoc _ _ _ _ (fun j => ?_) (fun j hj => by simp [cqeOf] at hj) h
+            show _ ≤ baseQ ((s.releaseSlot j').postCqe _).toQueues j + _ + _
+            rw [postCqe_baseQ]; simp [List.count_cons, St.releaseSlot, baseQ]
+          · show Suf _ (((s.releaseSlot j').postCqe _).cq ++ ((s.releaseSlot j').postCqe _).overflow)
+            rw [postCqe_queue]
+            refine suf_snoc _ _ _ _ (fun j => ?_) (fun j hj => by simp [cqeOf] at hj) h
+            show _ ≤ baseQ ((s.releaseSlot j').postCqe _).toQueues j + _ + _
+            rw [postCqe_baseQ]; simp [List.count_cons, St.releaseSlot, baseQ]
+
+theorem sufS_consumeAll (s : St) (h : SufS s) : SufS s.consumeAll := by
+  unfold St.consumeAll
+  apply suf_consume
+  refine suf_mono _ _ _ (fun j => ?_) h
+  simp [baseQ]; omega
+
+theorem sufS_kpostQuiet (s : St) (j : Nat) (r : Int) (f : Nat) (h : SufS s) : SufS (s.kpostQuiet j r f) := by
+  unfold St.kpostQuiet
+  split
+  · rename_i hc
+    have hmem := canPost_mem s j r hc
+    have hpos : 0 < s.inflight.count j := List.count_pos_iff.mpr hmem
+    refine sufS_post s _ _ rfl rfl ?_ ?_ h
+    · intro i
+      simp only [baseQ, isOpCqe]
+      cases hm : fMore f with
+      | true => simp
+      | false =>
+        by_cases hji : j = i
+        · subst hji; simp [List.count_erase_self, b2n]; omega
+        · have h' : i ≠ j := fun e => hji e.symm
+          simp [hji, b2n, List.count_erase_of_ne h']
+    · intro i hi
+      have hij : j = i := by simpa [cqeOf] using hi
+      subst hij
+      simp only [baseQ, isOpCqe]
+      cases hm : fMore f with
+      | true => simp; omega
+      | false => simp [b2n]
+  · exact h
+
+theorem sufS_foldl_kpost (posts : List Post) (s : St) (h : SufS s) :
+    SufS (posts.foldl (fun (s : St) p => s.kpostQuiet p.1 p.2.1 p.2.2) s) := by
+  induction posts generalizing s with
+  | nil => exact h
+  | cons p ps ih => exact ih _ (sufS_kpostQuiet s _ _ _ h)
+
+theorem sufS_enter (s : St) (m : Nat) (ge : Bool) (posts : List Post) (h : SufS s) :
+    SufS (s.enter m ge posts) := by
+  unfold St.enter
+  have h1 := sufS_foldl_kpost posts _ (sufS_consumeAll s h)
+  simp only []
+  split
+  · exact sufS_congr _ _ rfl rfl (fun _ => Nat.le_refl _) (sufS_flush _ h1)
+  · exact sufS_congr _ _ rfl rfl (fun _ => Nat.le_refl _) h1
+
+theorem sufS_cancelAll (s : St) (l : List Nat)
+    (h : Suf (fun j => baseQ s.toQueues j + l.count j) (s.cq ++ s.overflow)) : SufS (s.cancelAll l) := by
+  induction l generalizing s with
+  | nil => simpa [St.cancelAll, SufS] using h
+  | cons i is ih =>
+    simp only [St.cancelAll]
+    apply ih
+    rw [postCqe_queue]
+    refine suf_snoc _ _ _ _ (fun k => ?_) (fun k hk => ?_) h
+    · rw [postCqe_baseQ]
+      by_cases hik : i = k
+      · subst hik; simp [List.count_cons, isOpCqe, b2n]; omega
+      · simp [List.count_cons, hik, isOpCqe, b2n]
+    · have hik : i = k := by simpa [cqeOf] using hk
+      subst hik
+      simp [isOpCqe, b2n]
+
+/-! ### Processing -/
+
 /-- One processing step keeps the token equation (`Q` = the tokens held
 elsewhere, `c :: L` = the completions still to be processed). -/
 theorem process_tok (s : St) (c : Cqe) (L : List Cqe) (Q : Nat → Nat) (hok : AllOk s.ops)
-    (h : ∀ i, Q i + (c :: L).countP (isOpCqe i) = want s.ops i) :
-    AllOk (s.process c).ops ∧ (∀ i, Q i + L.countP (isOpCqe i) = want (s.process c).ops i) := by
+    (h : ∀ i, Q i + (c :: L).countP (isOpCqe i) = want s.ops i)
+    (hs : ∀ j, cqeOf j c = true → 1 ≤ Q j + (c :: L).countP (isOpCqe j)) :
+    AllOk (s.process c).ops ∧ (∀ i, Q i + L.countP (isOpCqe i) = want (s.process c).ops i) ∧
+    (s.process c).panicked = s.panicked := by
   cases hud : c.ud with
   | reserved n =>
-    have hops : (s.process c).ops = s.ops := by simp [St.process, hud]
+    have hops : (s.process c) = s := by simp [St.process, hud]
     rw [hops]
-    refine ⟨hok, fun i => ?_⟩
+    refine ⟨hok, fun i => ?_, rfl⟩
     have := h i
     simpa [List.countP_cons, isOpCqe, hud] using this
   | op j =>
     have hj := h j
-    have hcj : isOpCqe j c = true := by simp [isOpCqe, hud]
-    simp only [List.countP_cons, hcj, if_true] at hj
+    have hcj : cqeOf j c = true := by simp [cqeOf, hud]
+    have hpos := hs j hcj
     -- operation j exists and is active
     cases hget : s.ops[j]? with
-    | none => simp [want, hget] at hj
+    | none => rw [hj] at hpos; simp [want, hget] at hpos
     | some t =>
       have hw : want s.ops j = b2n (activeB t.op) := want_of_getElem? _ _ _ hget
       have hact : activeB t.op = true := by
         cases ha : activeB t.op with
         | true => rfl
-        | false => rw [hw, ha] at hj; simp at hj
+        | false => rw [hj, hw, ha] at hpos; simp at hpos
       have hokt : OpOk t.op := hok t (List.mem_of_getElem? hget)
-      obtain ⟨o', effs, hu, hina, hok', _, _⟩ := update_active t.op c.res hokt hact
-      have hops : (s.process c).ops = s.ops.set j { t with op := o' } := by
-        simp [St.process, hud, hget, hu, (applyEffs_frame _ _ _).1]
-      rw [hops]
-      refine ⟨allOk_set _ _ _ hok hok', fun i => ?_⟩
-      by_cases hij : i = j
-      · subst hij
-        rw [want_set_self _ _ _ _ hget]
-        simp only [hina, b2n_false]
-        rw [hw, hact] at hj; simp at hj; omega
-      · rw [want_set_ne _ _ _ _ hij]
-        have := h i
-        have hci : isOpCqe i c = false := by
-          simp [isOpCqe, hud]; exact fun e => hij e.symm
-        simpa [List.countP_cons, hci] using this
+      have hother : ∀ i, i ≠ j → isOpCqe i c = false := by
+        intro i hij
+        simp [isOpCqe, hud]; intro e; exact absurd e.symm hij
+      cases hm : fMore c.flags with
+      | false =>
+        have hfin : isOpCqe j c = true := by simp [isOpCqe, hud, hm]
+        obtain ⟨o', effs, hu, hina, hok', _, _⟩ := update_final t.op ⟨c.res, c.flags⟩ hokt hact hm
+        have hops : (s.process c).ops = s.ops.set j { t with op := o' } := by
+          simp [St.process, hud, hget, hu, (applyEffs_frame _ _ _).1]
+        have hpan : (s.process c).panicked = s.panicked := by
+          simp only [St.process, hud, hget, hu]
+          rw [show ∀ x : St, x.settlePool.panicked = x.panicked from fun x => by
+            unfold St.settlePool; split <;> rfl]
+          have : ∀ (x : St) (es : List Eff), (applyEffs x j es).panicked = x.panicked := by
+            intro x es
+            induction es generalizing x with
+            | nil => rfl
+            | cons e es ih => cases e <;> simp [applyEffs, ih]
+          rw [this]
+        rw [hops]
+        refine ⟨allOk_set _ _ _ hok hok', fun i => ?_, hpan⟩
+        by_cases hij : i = j
+        · subst hij
+          rw [want_set_self _ _ _ _ hget]
+          simp only [hina, b2n_false]
+          simp only [List.countP_cons, hfin, if_true] at hj
+          rw [hw, hact] at hj; simp at hj; omega
+        · rw [want_set_ne _ _ _ _ hij]
+          have := h i
+          simpa [List.countP_cons, hother i hij] using this
+      | true =>
+        have hnf : isOpCqe j c = false := by simp [isOpCqe, hud, hm]
+        obtain ⟨o', effs, hu, hact', hok', _, _, _⟩ := update_more t.op ⟨c.res, c.flags⟩ hokt hact hm
+        have hops : (s.process c).ops = s.ops.set j { t with op := o' } := by
+          simp [St.process, hud, hget, hu, (applyEffs_frame _ _ _).1]
+        have hpan : (s.process c).panicked = s.panicked := by
+          simp only [St.process, hud, hget, hu]
+          rw [show ∀ x : St, x.settlePool.panicked = x.panicked from fun x => by
+            unfold St.settlePool; split <;> rfl]
+          have : ∀ (x : St) (es : List Eff), (applyEffs x j es).panicked = x.panicked := by
+            intro x es
+            induction es generalizing x with
+            | nil => rfl
+            | cons e es ih => cases e <;> simp [applyEffs, ih]
+          rw [this]
+        rw [hops]
+        refine ⟨allOk_set _ _ _ hok hok', fun i => ?_, hpan⟩
+        by_cases hij : i = j
+        · subst hij
+          rw [want_set_self _ _ _ _ hget]
+          simp only [hact', b2n_true]
+          simp only [List.countP_cons, hnf] at hj
+          rw [hw, hact] at hj; simpa using hj
+        · rw [want_set_ne _ _ _ _ hij]
+          have := h i
+          simpa [List.countP_cons, hother i hij] using this
 
 theorem processAll_tok (s : St) (L : List Cqe) (Q : Nat → Nat) (hok : AllOk s.ops)
-    (h : ∀ i, Q i + L.countP (isOpCqe i) = want s.ops i) :
-    AllOk (s.processAll L).ops ∧ (∀ i, Q i = want (s.processAll L).ops i) := by
+    (h : ∀ i, Q i + L.countP (isOpCqe i) = want s.ops i) (hs : Suf Q L) :
+    AllOk (s.processAll L).ops ∧ (∀ i, Q i = want (s.processAll L).ops i) ∧
+    (s.processAll L).panicked = s.panicked := by
   induction L generalizing s with
-  | nil => exact ⟨hok, by simpa [St.processAll] using h⟩
+  | nil => exact ⟨hok, by simpa [St.processAll] using h, rfl⟩
   | cons c cs ih =>
-    obtain ⟨h1, h2⟩ := process_tok s c cs Q hok h
-    exact ih (s.process c) h1 h2
+    obtain ⟨h1, h2, h3⟩ := process_tok s c cs Q hok h hs.1
+    obtain ⟨r1, r2, r3⟩ := ih (s.process c) h1 h2 hs.2
+    exact ⟨r1, r2, by simp only [St.processAll]; rw [r3, h3]⟩
 
-/-- The operations and the token equation, as one statement about a state. -/
-def TokEq (s : St) : Prop := AllOk s.ops ∧ ∀ i, tokQ s.toQueues i = want s.ops i
+/-- The operations, the token equation and the position of the completions that
+carry no token, as one statement about a state. -/
+def TokEq (s : St) : Prop := AllOk s.ops ∧ (∀ i, tokQ s.toQueues i = want s.ops i) ∧ SufS s
 
-theorem tokEq_drainCq (s : St) (h : TokEq s) : TokEq s.drainCq := by
-  obtain ⟨hok, htok⟩ := h
+theorem queues_fields (a b : St) (h : a.toQueues = b.toQueues) :
+    a.cq = b.cq ∧ a.overflow = b.overflow ∧ a.sq = b.sq ∧ a.inflight = b.inflight := by
+  have h1 : a.toQueues.cq = b.toQueues.cq := by rw [h]
+  have h2 : a.toQueues.overflow = b.toQueues.overflow := by rw [h]
+  have h3 : a.toQueues.sq = b.toQueues.sq := by rw [h]
+  have h4 : a.toQueues.inflight = b.toQueues.inflight := by rw [h]
+  exact ⟨h1, h2, h3, h4⟩
+
+theorem drainCq_spec (s : St) (h : TokEq s) : TokEq s.drainCq ∧ s.drainCq.panicked = s.panicked := by
+  obtain ⟨hok, htok, hsuf⟩ := h
   unfold St.drainCq
   have key := processAll_tok ({ s with cq := [] } : St) s.cq
     (fun i => tokQ ({ s with cq := [] } : St).toQueues i) hok (by
       intro i
       have := htok i
       simp only [tokQ] at this ⊢
-      simp; omega)
-  refine ⟨key.1, fun i => ?_⟩
-  have := key.2 i
-  simp only [tokQ] at this ⊢
-  simpa using this
+      simp; omega) (by
+      have := suf_left _ _ _ hsuf
+      refine suf_mono _ _ _ (fun j => ?_) this
+      simp [tokQ, baseQ])
+  have hq := processAll_queues ({ s with cq := [] } : St) s.cq
+  refine ⟨⟨key.1, fun i => ?_, ?_⟩, key.2.2⟩
+  · have := key.2.1 i
+    simp only [tokQ] at this ⊢
+    simpa using this
+  · -- the overflow list is what is left of the queue
+    have hov := suf_append_right _ _ _ hsuf
+    have h0 : SufS ({ s with cq := [] } : St) := hov
+    obtain ⟨hcq, hovf, hsq, hin⟩ := queues_fields _ _ hq
+    refine sufS_congr ({ s with cq := [] } : St) _ hcq hovf (fun j => ?_) h0
+    show baseQ _ j ≤ (St.processAll ({ s with cq := [] } : St) s.cq).sq.count _
+      + (St.processAll ({ s with cq := [] } : St) s.cq).inflight.count _
+    rw [hsq, hin]
+    exact Nat.le_refl _
 
-theorem tokEq_enter (s : St) (m : Nat) (ge : Bool) (posts : List (Nat × Int)) (h : TokEq s) :
+theorem tokEq_drainCq (s : St) (h : TokEq s) : TokEq s.drainCq := (drainCq_spec s h).1
+
+theorem tokEq_enter (s : St) (m : Nat) (ge : Bool) (posts : List Post) (h : TokEq s) :
     TokEq (s.enter m ge posts) := by
-  obtain ⟨hok, htok⟩ := h
-  refine ⟨by simpa using hok, fun i => ?_⟩
+  obtain ⟨hok, htok, hsuf⟩ := h
+  refine ⟨by simpa using hok, fun i => ?_, sufS_enter s m ge posts hsuf⟩
   rw [tokQ_enter]; simpa using htok i
 
 theorem tokEq_loopFetch (s : St) (h : TokEq s) : TokEq s.loopFetch := by
